@@ -249,6 +249,33 @@ def run_c01(case, ctx):
     a01, o01 = inv(trx.snr_01nm), inv(trx.osnr_ase_01nm)
     if (np.abs(a01 - (o01 + n * 12.5e9 / baud)) > 1e-9 * a01 + 1e-300).any():
         ctx.violation('receiver-identity-01nm', f'1/snr01={a01[:3]}')
+    # ---- history: a second spectrum (the lower half of the surviving channels) through the very same element objects:
+    # every element still hands on exactly the channels it received (a merge must not bring back channels of an earlier call)
+    import copy
+    from gnpy.topology.request import propagate
+    from gnpy.core.info import Carrier
+    survivors = sorted(float(f) for f in last['f'])
+    keep = set(survivors[:max(1, len(survivors) // 2)])
+    if len(keep) < len(survivors) and case.get('comb'):
+        req2 = copy.deepcopy(p.req)
+        req2.initial_spectrum = {f: c for f, c in spectra.comb_to_carriers(case['comb']).items() if float(f) in keep}
+        netgen.reset_sim_params(case.get('sim'))
+        try:
+            with Recorder() as rec2:
+                propagate(p.path, req2, p.equipment)
+        finally:
+            netgen.reset_sim_params()
+        ctx.label('history:second-spectrum-on-used-objects')
+        for r in rec2.records:
+            extra = sorted(set(r['after']['f']) - set(r['before']['f']))
+            if extra:
+                ctx.violation('history:channel-appeared-that-was-not-at-the-input',
+                              f'{r["kind"]} {r["uid"]}: {len(r["before"]["f"])} channels in, {len(r["after"]["f"])} out, '
+                              f'e.g. {extra[:3]}')
+                return
+            for stage in ('before', 'after'):
+                if not check_decomposition(ctx, r[stage], f'second spectrum, {r["kind"]} {r["uid"]} {stage}'):
+                    return
     for k in sorted(kinds):
         ctx.label('kind:' + k)
     ctx.label(f'nli:{case["sim"]["nli_params"]["method"]}')
